@@ -2,7 +2,8 @@
 # usage: harmless_run.sh <diff>... : apply a behaviour-preserving change to /repo, run every quick
 # check (proofs skipped), undo it; prints the checks that reported something.
 cd /verif
-trap 'git -C /repo checkout -- .' EXIT INT TERM
+trap 'git -C /repo checkout -- .' EXIT
+trap 'git -C /repo checkout -- .; exit 130' INT TERM
 for d in "$@"; do
   git -C /repo checkout -- . ; git -C /repo apply $d || { echo "$d PATCH-DOES-NOT-APPLY"; continue; }
   bad=""
